@@ -1,8 +1,8 @@
 ----------------------------- MODULE Trace_RR -----------------------------
 (***************************************************************************)
 (* Trace specification for the balancer (subject "rr") and the balancer    *)
-(* managed through the rebalancer (subject "rb").  Every recorded event of *)
-(* the real code is consumed in order; two layers are evaluated:           *)
+(* managed through the rebalancer (subject "rb"; "rba": adjusting).  Every *)
+(* recorded event of the real code is consumed in order; two layers:       *)
 (*   contract  (bad)   - clauses of C01 / C02 / C11 over observations only *)
 (*   impl      (drift) - the rr.go model of RoundRobin.tla predicts the    *)
 (*                       observed selection (subject rr only)              *)
@@ -37,9 +37,11 @@ Reset ==
 MemKeys(m) == {m[i].k : i \in 1..Len(m)}
 MemW(m, k) == LET i == CHOOSE j \in 1..Len(m) : m[j].k = k IN m[i].w
 MemDistinct(m) == \A i, j \in 1..Len(m) : i # j => m[i].k # m[j].k
+(* subject "rba" is the rebalancer with meters that make it adjust weights all the time: the effective weights then differ *)
+(* from the configured ones by design, but a drained server stays drained and a serving one keeps a positive weight       *)
 MembersOK(m, r) == /\ MemKeys(m) = DOMAIN r
                    /\ MemDistinct(m)
-                   /\ \A k \in DOMAIN r : MemW(m, k) = r[k]
+                   /\ \A k \in DOMAIN r : IF subject = "rba" THEN (MemW(m, k) = 0) = (r[k] = 0) ELSE MemW(m, k) = r[k]
 NotMutated(m) == \A i \in 1..Len(m) : m[i].k # "?"
 
 RefUpsertObs(r, k, w, m) ==
@@ -108,6 +110,7 @@ SelChecks(k) ==
   IN <<
     <<RefServable(ref), "C02.NoTrafficWhenUnservable">>,
     <<member, "C02.RoutedToMember">>,
+    <<member => ref[k] > 0, "C02.DrainedServerGetsNoTraffic">>,
     <<member => ref[k] > 0, "C01.ZeroWeightNeverChosen">>,
     <<(member /\ RefServable(ref) /\ ref[k] > 0 /\ n <= W) => c <= ref[k] \div g, "C01.WindowExact">>,
     <<(member /\ RefServable(ref) /\ n = W) =>
